@@ -68,19 +68,20 @@ example : pageRun {} [.setSize 4096, .setShift 16, .setSize 3, .setShift 64] = s
 /-! ## registers are views of PRSTATUS -/
 
 inductive CpuOp
-  | get (i : Nat) | set (i v : Nat) | blob (b : Bytes) | poke (off : Nat) (bs : Bytes)
+  | get (i : Nat) | set (i v : Nat) | blob (b : Bytes) | poke (off : Nat) (bs : Bytes) | clearBlob
 
 def cpuStep (c : Cpu) : CpuOp → Cpu
   | .get i => (getReg c i).2.1
   | .set i v => (setReg c i v).2
   | .blob b => setBlob c b
   | .poke off bs => (poke c off bs).getD c
+  | .clearBlob => clearBlob c
 
 def cpuRun (c : Cpu) : List CpuOp → Cpu
   | [] => c
   | op :: t => cpuRun (cpuStep c op) t
 
-/-- After every history of reads, writes, blob replacements and in-place edits every
+/-- After every history of reads, writes, blob replacements, clears and in-place edits every
 register is still flagged "re-read from the blob" (as at creation) … -/
 theorem reg_history (c : Cpu) (h : AllInvalid c) (ops : List CpuOp) : AllInvalid (cpuRun c ops) := by
   induction ops generalizing c with
@@ -91,41 +92,53 @@ theorem reg_history (c : Cpu) (h : AllInvalid c) (ops : List CpuOp) : AllInvalid
     | get i => exact getReg_allInvalid c h i
     | set i v => exact setReg_allInvalid c h i v
     | blob b => exact h
+    | clearBlob => exact h
     | poke off bs =>
       simp only [cpuStep, poke]
       split <;> exact h
 
 /-- … so a read returns exactly the blob's bytes at the register's offset in the dump's
 byte order (and fails when the blob is too short), -/
-theorem reg_read_eq_blob (c : Cpu) (h : AllInvalid c) (i : Nat) (r : Reg) (hr : c.regs[i]? = some r)
-    (hl : okLen r.d.len = true) :
+theorem reg_read_eq_blob (c : Cpu) (h : AllInvalid c) (hb : c.blobSet = true) (i : Nat) (r : Reg)
+    (hr : c.regs[i]? = some r) (hl : okLen r.d.len = true) :
     (r.d.off + r.d.len ≤ c.blob.length →
       (getReg c i).1 = .ok ∧ (getReg c i).2.2 = some (decode c.be ((c.blob.drop r.d.off).take r.d.len)) ∧
       (getReg c i).2.1.blob = c.blob) ∧
     (c.blob.length < r.d.off + r.d.len → (getReg c i).1 = .corrupt ∧ (getReg c i).2.2 = none) := by
-  refine ⟨fun hin => ?_, fun hout => getReg_short c h i r hr hout⟩
-  obtain ⟨h1, h2, h3, _⟩ := getReg_eq_blob c h i r hr hin hl
+  refine ⟨fun hin => ?_, fun hout => getReg_short c h hb i r hr hout⟩
+  obtain ⟨h1, h2, h3, _⟩ := getReg_eq_blob c h hb i r hr hin hl
   exact ⟨h1, h2, h3⟩
 
 /-- a write patches exactly the register's bytes (nothing outside, length unchanged) with
 the value in dump byte order, or fails and leaves the blob alone, -/
-theorem reg_write_patches_blob (c : Cpu) (h : AllInvalid c) (i v : Nat) (r : Reg) (hr : c.regs[i]? = some r)
-    (hl : okLen r.d.len = true) :
+theorem reg_write_patches_blob (c : Cpu) (h : AllInvalid c) (hb : c.blobSet = true) (i v : Nat) (r : Reg)
+    (hr : c.regs[i]? = some r) (hl : okLen r.d.len = true) :
     (r.d.off + r.d.len ≤ c.blob.length →
       (setReg c i v).1 = .ok ∧
       (setReg c i v).2.blob = patch c.blob r.d.off (encode c.be r.d.len v) ∧
       (setReg c i v).2.blob.length = c.blob.length ∧
       (∀ j, (j < r.d.off ∨ r.d.off + r.d.len ≤ j) → (setReg c i v).2.blob[j]? = c.blob[j]?)) ∧
     (c.blob.length < r.d.off + r.d.len → (setReg c i v).1 = .corrupt ∧ (setReg c i v).2.blob = c.blob) := by
-  refine ⟨fun hin => ?_, fun hout => setReg_short c h i v r hr hout⟩
-  obtain ⟨h1, h2, h3, h4, _⟩ := setReg_blob c h i v r hr hin hl
+  refine ⟨fun hin => ?_, fun hout => setReg_short c h hb i v r hr hout⟩
+  obtain ⟨h1, h2, h3, h4, _⟩ := setReg_blob c h hb i v r hr hin hl
   exact ⟨h1, h2, h3, h4⟩
 
 /-- and reading back gives the written value truncated to the register's width. -/
-theorem reg_read_after_write (c : Cpu) (h : AllInvalid c) (i v : Nat) (r : Reg) (hr : c.regs[i]? = some r)
-    (hin : r.d.off + r.d.len ≤ c.blob.length) (hl : okLen r.d.len = true) :
+theorem reg_read_after_write (c : Cpu) (h : AllInvalid c) (hb : c.blobSet = true) (i v : Nat) (r : Reg)
+    (hr : c.regs[i]? = some r) (hin : r.d.off + r.d.len ≤ c.blob.length) (hl : okLen r.d.len = true) :
     (getReg (setReg c i v).2 i).2.2 = some (v % 256 ^ r.d.len) :=
-  get_after_set c h i v r hr hin hl
+  get_after_set c h hb i v r hr hin hl
+
+/-- After PRSTATUS has been cleared no register can be read or written (`nodata`); the
+views come back when a new blob is set (`setBlob` makes `blobSet` true again). -/
+theorem reg_cleared (c : Cpu) (h : AllInvalid c) (i v : Nat) (r : Reg) (hr : (clearBlob c).regs[i]? = some r) :
+    (getReg (clearBlob c) i).1 = .nodata ∧ (getReg (clearBlob c) i).2.2 = none ∧
+    (setReg (clearBlob c) i v).1 = .nodata ∧ (setReg (clearBlob c) i v).2.blobSet = false ∧
+    ∀ b, (setBlob (clearBlob c) b).blobSet = true ∧ (setBlob (clearBlob c) b).blob = b := by
+  have h' : AllInvalid (clearBlob c) := h
+  obtain ⟨a1, a2⟩ := getReg_cleared (clearBlob c) h' rfl i r hr
+  obtain ⟨b1, _, b3⟩ := setReg_cleared (clearBlob c) h' rfl i v r hr
+  exact ⟨a1, a2, b1, b3, fun b => ⟨rfl, rfl⟩⟩
 
 -- non-vacuity: a big-endian 4-byte register at offset 2 of a 8-byte blob
 example : AllInvalid { be := true, blob := [1,2,3,4,5,6,7,8], regs := [{ d := ⟨"a0", 2, 4⟩ }] } := by
@@ -216,16 +229,17 @@ theorem vmci_lines_split (raw : Bytes) :
 
 /-- If a text is accepted, the parsed lines are exactly the key/value list of the text
 (for a repeated key the last row wins), `kdump_vmcoreinfo_line` returns exactly that
-value (and `nodata` for a key the text does not have) — for all texts, any keys that do
-not start with a dot: repeated keys, keys that are plain or dotted prefixes of other
-keys (a text with a dotted-prefix pair is not accepted: see `vmci_dir_refused`). -/
-theorem vmci_lines_view (c : Ctx) (b : Bytes) (c' : Ctx) (hnd : NoLeadingDot (rowsOf b))
-    (h : setRaw c b = .done .ok c') (k : Bytes) (hk : k.head? ≠ some 46) :
+value (and `nodata` for a key the text does not have) — for all texts and all keys:
+repeated keys, keys that are plain or dotted prefixes of other keys (a text with a
+dotted-prefix pair or with a key that starts with a dot is not accepted: see
+`vmci_dir_refused`, `vmci_dot_refused`). -/
+theorem vmci_lines_view (c : Ctx) (b : Bytes) (c' : Ctx)
+    (h : setRaw c b = .done .ok c') (k : Bytes) :
     c'.lines.find k = lastVal (rowsOf b) k ∧
     vline c' k = (match lastVal (rowsOf b) k with
                   | some v => (.ok, v)
                   | none => (.nodata, [])) :=
-  ⟨setRaw_lines c b c' hnd h k hk, setRaw_vline c b c' hnd h k hk⟩
+  ⟨setRaw_lines c b c' h k, setRaw_vline c b c' h k⟩
 
 /-- Whatever the outcome of setting a text, the raw attribute and `kdump_vmcoreinfo_raw`
 give back exactly that text; clearing it clears every derived view. -/
@@ -240,10 +254,20 @@ theorem vmci_raw_unchanged (c : Ctx) (b : Bytes) (st : Status) (c' : Ctx) (h : s
 
 /-- A row whose key names a directory of the tree built so far is refused and changes
 nothing (FINDING vmci-dotted-prefix: such a text cannot be represented). -/
-theorem vmci_dir_refused (c : Ctx) (r : Row) (hk : r.key.head? ≠ some 46)
+theorem vmci_dir_refused (c : Ctx) (r : Row) (hk : leadingDot r.key = false)
     (hnew : c.lines.find r.key = none) (hdir : c.lines.isDir r.key = true) :
     addRow c r = .done .invalid c :=
   addRow_dir_refused c r hk hnew hdir
+
+/-- A row whose key starts with a dot is refused and changes nothing, an accepted text has
+no such row, and the convenience calls never find a key with a leading dot (FINDING
+vmci-leading-dot: such a text is refused as a whole). -/
+theorem vmci_dot_refused (c : Ctx) (r : Row) (hk : leadingDot r.key = true) :
+    addRow c r = .done .system c ∧ (vline c r.key).1 = .nodata ∧ (vsym c r.key).1 = .nodata ∧
+    (∀ b c', setRaw c b = .done .ok c' → ∀ r' ∈ rowsOf b, leadingDot r'.key = false) := by
+  refine ⟨addRow_dot_refused c r hk, ?_, ?_, fun b c' h => setRaw_ok_noDot c b c' h⟩
+  · simp only [vline, hk]; split <;> rfl
+  · simp only [vsym, hk]; split <;> rfl
 
 /- NOT PROVED (observed by the correspondence stream and the Python oracle only):
    `typed_eq_parse` — every SYMBOL/NUMBER/OFFSET/SIZE/LENGTH value is `strtoull` of the
@@ -262,5 +286,9 @@ example : (match setRaw {} [83,89,77,66,79,76,40,115,41,61,102,102,10] with
     | _ => false) = true := by decide
 example : (match setRaw {} [65,61,49,10,65,46,66,61,50,10] with | .done .system _ => true | _ => false) = true := by decide
 example : (match setRaw {} [65,46,66,61,50,10,65,61,49,10] with | .done .invalid _ => true | _ => false) = true := by decide
+-- "A=1\n.A=2\n": refused at the dotted row, line "A" keeps 1, ".A" is no line
+example : (match setRaw {} [65,61,49,10,46,65,61,50,10] with
+    | .done .system c => vline c [65] == (.ok, [49]) && vline c [46,65] == (.nodata, [])
+    | _ => false) = true := by decide
 
 end Kdf.Props.C14
